@@ -112,7 +112,9 @@ func runC10(c *Ctx) {
 	}
 	// ---- R10.3 one token map for all generators ----
 	mainFn := p.Func("", "main")
-	if mainFn != nil {
+	if mainTableDecided(p) {
+		checkMainTable(c, p, "R10.3", "tokenmap")
+	} else if mainFn != nil {
 		var ntm *ssa.Call
 		var listT, addIds *ssa.Call
 		uses := map[string]ssa.Value{}
